@@ -131,6 +131,8 @@ def run_check(pid, tier):
         for rep in verify_contract(ct):
             reports.append(rep)
             fn_status[rep.qualname] = (rep.status, rep.detail or ("REGION: " + rep.region if getattr(rep, "region", None) else ""), rep.paths, len(rep.obligs), round(rep.time_s, 3))
+            if rep.status == "unbound":
+                continue  # the contract's proof structure does not bind to this source: its obligations say nothing (function UNDECIDED)
             for o in rep.obligs:
                 (canaries if o.kind == "canary" else obligs).append(o)
     # property-level SMT lemmas
